@@ -538,21 +538,21 @@ package getoptions
 //@ spec func OneValid(o *option.Option, v string) bool = len(o.ValidValues) == 0 || InValid(o, v)
 //@ spec func ScalarsKept(o *option.Option) bool = *o.pBool == old(*o.pBool) && *o.pString == old(*o.pString) && *o.pInt == old(*o.pInt) && *o.pFloat64 == old(*o.pFloat64)
 //@ func (*GetOpt).GetEnv$1
-//@   props C12 C19
+//@   props C12 C06 C19
 //@   implements type ModifyFn
 //@   requires env.private: &name != opt.pString    //# the captured variable is private to the closure (assumption)
 //@   ensures env.var {C12}: opt.EnvVar == name
-//@   ensures env.unset {C12}: EnvV(name) == "" ==> ScalarsKept(opt) && opt.Called == old(opt.Called) && opt.UsedAlias == old(opt.UsedAlias)
-//@   ensures env.bool {C12}: opt.OptType == option.BoolType && EnvV(name) != "" && (lower(EnvV(name)) == "true" || lower(EnvV(name)) == "false") && OneValid(opt, lower(EnvV(name)))
+//@   ensures env.unset {C12,C06}: EnvV(name) == "" ==> ScalarsKept(opt) && opt.Called == old(opt.Called) && opt.UsedAlias == old(opt.UsedAlias)
+//@   ensures env.bool {C12,C06}: opt.OptType == option.BoolType && EnvV(name) != "" && (lower(EnvV(name)) == "true" || lower(EnvV(name)) == "false") && OneValid(opt, lower(EnvV(name)))
 //@     ==> *opt.pBool == (lower(EnvV(name)) == "true") && opt.Called && opt.UsedAlias == name
-//@   ensures env.bool.invalid {C12}: opt.OptType == option.BoolType && !(lower(EnvV(name)) == "true" || lower(EnvV(name)) == "false")
+//@   ensures env.bool.invalid {C12,C06}: opt.OptType == option.BoolType && !(lower(EnvV(name)) == "true" || lower(EnvV(name)) == "false")
 //@     ==> ScalarsKept(opt) && opt.Called == old(opt.Called) && opt.UsedAlias == old(opt.UsedAlias)
-//@   ensures env.string {C12}: IsStringKind(opt.OptType) && EnvV(name) != "" && OneValid(opt, EnvV(name)) ==> *opt.pString == EnvV(name) && opt.Called && opt.UsedAlias == name
-//@   ensures env.int.ok {C12}: IsIntKind(opt.OptType) && EnvV(name) != "" && OneValid(opt, EnvV(name)) && atoi_ok(EnvV(name)) ==> *opt.pInt == atoi_val(EnvV(name)) && opt.Called && opt.UsedAlias == name
+//@   ensures env.string {C12,C06}: IsStringKind(opt.OptType) && EnvV(name) != "" && OneValid(opt, EnvV(name)) ==> *opt.pString == EnvV(name) && opt.Called && opt.UsedAlias == name
+//@   ensures env.int.ok {C12,C06}: IsIntKind(opt.OptType) && EnvV(name) != "" && OneValid(opt, EnvV(name)) && atoi_ok(EnvV(name)) ==> *opt.pInt == atoi_val(EnvV(name)) && opt.Called && opt.UsedAlias == name
 //@   ensures env.int.bad {C12}: IsIntKind(opt.OptType) && EnvV(name) != "" && !atoi_ok(EnvV(name)) ==> *opt.pInt == old(*opt.pInt)
-//@   ensures env.float.ok {C12}: IsFloatKind(opt.OptType) && EnvV(name) != "" && OneValid(opt, EnvV(name)) && pf_ok(EnvV(name)) ==> *opt.pFloat64 == pf_val(EnvV(name)) && opt.Called && opt.UsedAlias == name
+//@   ensures env.float.ok {C12,C06}: IsFloatKind(opt.OptType) && EnvV(name) != "" && OneValid(opt, EnvV(name)) && pf_ok(EnvV(name)) ==> *opt.pFloat64 == pf_val(EnvV(name)) && opt.Called && opt.UsedAlias == name
 //@   ensures env.float.bad {C12}: IsFloatKind(opt.OptType) && EnvV(name) != "" && !pf_ok(EnvV(name)) ==> *opt.pFloat64 == old(*opt.pFloat64)
-//@   ensures env.other {C12}: (opt.OptType == option.IncrementType || IsMultiKind(opt.OptType)) ==> ScalarsKept(opt) && opt.Called == old(opt.Called) && opt.UsedAlias == old(opt.UsedAlias)
+//@   ensures env.other {C12,C06}: (opt.OptType == option.IncrementType || IsMultiKind(opt.OptType)) ==> ScalarsKept(opt) && opt.Called == old(opt.Called) && opt.UsedAlias == old(opt.UsedAlias)
 
 // ---- help command ---------------------------------------------------------------------------------
 //@ func runHelp
@@ -623,12 +623,12 @@ package getoptions
 //@   ensures new.defaults {C07,C08,C09}: result.programTree.mode == Normal && result.programTree.unknownMode == Fail && !result.programTree.requireOrder
 
 //@ func copyOptionsFromParent
-//@   props C10 C19
+//@   props C05 C06 C08 C10 C11 C17 C19
 //@   requires copy.pre: parent != nil && TreeShape() && ChildLevelsOK() && TablesDistinct()
 //@   modifies allmaps(map[string]*option.Option)
 //@   ensures copy.shape: TreeShape()
-//@   ensures copy.upper {C10,C06}: forall n *programTree :: n != nil && n.Level <= parent.Level ==> SameTable(n)
-//@   ensures copy.children {C10,C11,C17}: forall kc string :: (kc in parent.ChildCommands) && Inherits(parent, parent.ChildCommands[kc]) ==> HasAll(parent.ChildCommands[kc], parent)
+//@   ensures copy.upper {C05,C06,C08,C10}: forall n *programTree :: n != nil && n.Level <= parent.Level ==> SameTable(n)
+//@   ensures copy.children {C05,C06,C08,C10,C11,C17}: forall kc string :: (kc in parent.ChildCommands) && Inherits(parent, parent.ChildCommands[kc]) ==> HasAll(parent.ChildCommands[kc], parent)
 //@   ensures copy.grow {C10}: forall n *programTree, k string :: n != nil && old(k in n.ChildOptions) ==> (k in n.ChildOptions)
 //@   loop "for k, v := range parent.ChildOptions"
 //@     modifies allmaps(map[string]*option.Option)
@@ -654,7 +654,7 @@ package getoptions
 //@     invariant copy3.grow: forall n *programTree, q string :: n != nil && old(q in n.ChildOptions) ==> (q in n.ChildOptions)
 
 //@ func (*GetOpt).NewCommand
-//@   props C10 C19
+//@   props C05 C06 C08 C10 C11 C17 C19
 //@   requires newcmd.pre: gopt != nil && gopt.programTree != nil && TreeShape() && ChildLevelsOK() && TablesDistinct() && gopt.programTree.Level < 1000000
 //@   maypanic newcmd.invalid: name == "" || (name in gopt.programTree.ChildCommands)
 //@   allocates GetOpt, programTree, map[string]*programTree, map[string]*option.Option
@@ -667,17 +667,17 @@ package getoptions
 //@     && result.programTree.unknownMode == gopt.programTree.unknownMode && result.programTree.requireOrder == gopt.programTree.requireOrder
 //@     && result.programTree.mapKeysToLower == gopt.programTree.mapKeysToLower && result.programTree.HelpCommandName == gopt.programTree.HelpCommandName
 //@     && result.programTree.CommandFn == nil && len(result.programTree.ChildCommands) == 0
-//@   ensures newcmd.inherit {C10,C11,C17,C06}: name != gopt.programTree.HelpCommandName ==> HasAll(result.programTree, gopt.programTree)
+//@   ensures newcmd.inherit {C05,C06,C08,C10,C11,C17}: name != gopt.programTree.HelpCommandName ==> HasAll(result.programTree, gopt.programTree)
 //@   ensures newcmd.own {C10,C06}: SameTable(gopt.programTree)
 //@   ensures newcmd.shape: TreeShape() && ChildLevelsOK() && TablesDistinct()
 
 // Wrapper commands drop what they inherited and are skipped by later copies.
 //@ func (*GetOpt).UnsetOptions
-//@   props C10 C19
+//@   props C05 C06 C08 C10 C11 C17 C19
 //@   requires gopt != nil && gopt.programTree != nil
 //@   allocates map[string]*option.Option
 //@   modifies gopt.programTree.ChildOptions, gopt.programTree.skipOptionsCopy
-//@   ensures unset {C10}: result == gopt && gopt.programTree.skipOptionsCopy && gopt.programTree.ChildOptions != nil && fresh(gopt.programTree.ChildOptions) && len(gopt.programTree.ChildOptions) == 0
+//@   ensures unset {C05,C06,C08,C10,C11,C17}: result == gopt && gopt.programTree.skipOptionsCopy && gopt.programTree.ChildOptions != nil && fresh(gopt.programTree.ChildOptions) && len(gopt.programTree.ChildOptions) == 0
 
 //@ func (*GetOpt).Self
 //@   props C18 C19
